@@ -50,7 +50,7 @@ func vfRunTests(dir string, m *vfModel, tests []vfTestExec) []vfCallObs {
 		for _, cl := range te.Calls {
 			mk := t.mark()
 			ops := vfLogged(func() { cl.do(t, dir) })
-			o := vfCallObs{Test: te.Name, Call: cl, Got: t.outcome(mk), Muts: sched.Mutations(ops)}
+			o := vfCallObs{Test: te.Name, Call: cl, Got: t.outcome(mk), Muts: vfMutOps(ops)}
 			if len(t.errs) > mk.e {
 				o.ErrText = t.errs[mk.e]
 			}
